@@ -678,7 +678,8 @@ func runPipeline(r *vlib.Run) {
 	r.Assume("an EMPTY configured access list is sdns's documented open default (accesslist.New installs 0.0.0.0/0 and ::0/0); a non-empty list of only unparsable entries admits nobody")
 	r.Assume("a DoH request from a denied source gets an HTTP error status with no DNS message (net/http must answer the request); that is counted as 'no reply'")
 	r.Assume("probe sources never use port 0: 127.0.0.255:0 is sdns's documented legacy internal sentinel (responseWriter.Reset), unreachable from a real socket")
-	r.Assume("when the first view containing the client holds no record for the question, sdns falls through to resolution (documented in views.ServeDNS); those probes are counted, not judged")
+	r.Assume("when the first view containing the client holds no record of the question's name and type (name absent, or held with other types only), sdns falls through to the next handler (documented in views.ServeDNS); judged there: the reply carries no view's data, in particular never that of a later view containing the client too; whether the fall-through ends in resolution is counted, not judged")
+	r.Assume("'a record of that name and type' = same type and the owner equals the name or is a wildcard whose parent is a proper ancestor of the name (whole labels, ASCII case-insensitive); WHICH of several covering records a view returns (exact over wildcard, closest wildcard) is counted, not judged")
 }
 
 func replayPipeline(r *vlib.Run, rc json.RawMessage) {
